@@ -105,6 +105,9 @@ pub struct Part {
     pub word: String,
     /// `^n` written after the word
     pub power: Option<i32>,
+    /// the exponent is written `**n`
+    #[serde(default)]
+    pub starstar: bool,
 }
 
 fn tool_readings(text: &str) -> Result<(Option<Mirror>, Option<Mirror>), String> {
@@ -342,7 +345,7 @@ fn render_parts(parts: &[Part]) -> String {
         s.push_str(&p.sep);
         s.push_str(&p.word);
         if let Some(n) = p.power {
-            s.push_str(&format!("^{}", n));
+            s.push_str(&format!("{}{}", if p.starstar { "**" } else { "^" }, n));
         }
     }
     s
@@ -610,11 +613,11 @@ fn any_word() -> impl Strategy<Value = String> {
 }
 
 fn expr_parts(max_power: i32) -> impl Strategy<Value = Vec<Part>> {
-    let part = (any_word(), prop_oneof![3 => Just("*"), 2 => Just(" "), 2 => Just("/"), 1 => Just("")], prop::option::weighted(0.35, -max_power..=max_power));
+    let part = (any_word(), prop_oneof![3 => Just("*"), 2 => Just(" "), 2 => Just("/"), 1 => Just("")], prop::option::weighted(0.35, -max_power..=max_power), prop::bool::weighted(0.2));
     prop::collection::vec(part, 1..=4).prop_map(|v| {
         v.into_iter()
             .enumerate()
-            .map(|(i, (word, sep, power))| Part { sep: if i == 0 { String::new() } else { sep.to_string() }, word, power })
+            .map(|(i, (word, sep, power, starstar))| Part { sep: if i == 0 { String::new() } else { sep.to_string() }, word, power, starstar })
             .collect()
     })
 }
@@ -693,7 +696,7 @@ pub fn run_check(ctx: &Ctx) {
             |i| {
                 let a = &short[(i / k) as usize];
                 let b = &short[(i % k) as usize];
-                let parts = vec![Part { sep: String::new(), word: format!("{}{}", a, b), power: None }];
+                let parts = vec![Part { sep: String::new(), word: format!("{}{}", a, b), power: None, starstar: false }];
                 Some(Case::Expr { text: render_parts(&parts), parts })
             },
             check,
